@@ -117,6 +117,7 @@ static int run_case(int fsmode, int argc, char **argv, int timeout_ms, long rss_
       int n = open("/dev/null", O_RDWR); dup2(n, 0); dup2(n, 1);
       int e = open(errpath, O_WRONLY | O_CREAT | O_TRUNC, 0644); if (e < 0) _exit(93); dup2(e, 2);
       struct rlimit rl = { 256u << 20, 256u << 20 }; setrlimit(RLIMIT_FSIZE, &rl);
+      struct rlimit nf = { 65536, 65536 }; setrlimit(RLIMIT_NOFILE, &nf);   /* a fixed, generous descriptor limit */
       execv(exe, argv); _exit(92);
     }
     for (;;) {
